@@ -262,6 +262,19 @@ pub fn check(sc: &Scenario, out: &RunOutput) -> OracleResult {
             }
         }
     }
+    // (5') nor discarded when the connection ends: a reader that read until the stream ended
+    // (end-of-stream or error) has been handed every byte the endpoint acknowledged - the peer
+    // was told they arrived. (Not judged: packets larger than the whole buffer; a peer that
+    // re-used sequence numbers around its FIN; connections ended by the harness.)
+    let fin_amid_data = fin_seqs.iter().any(|f| delivered_any.iter().any(|d| seq_diff(*d, *f) >= 0));
+    if (reader_eof || reader_err) && !reader_dropped && !oversize && !fin_amid_data {
+        if let Some(m) = max_acked {
+            let need = bytes_upto(&delivered, m);
+            if read_total < need {
+                res.violate(P, "acked-data-not-handed-over", out.t_end, format!("the reader read until the stream ended ({}) and obtained {} bytes although the endpoint had acknowledged {} bytes (ack_nr {})", if reader_eof { "end-of-stream" } else { "error" }, read_total, need, m));
+            }
+        }
+    }
     // with a window-respecting sender the buffered bytes never exceed rx_buf (probe H2)
     if exact {
         for (t, _, x) in w.events() {
